@@ -57,12 +57,23 @@ Definition gexpand (g : list gseg) : list event :=
 
 Record wobs := mkObs {
   o_w : nat;                         (* watcher *)
+  o_S : N; o_P : bytes;              (* the request the client sent: start revision and prefix *)
   o_status : option N;               (* Watch returned: 0 = error, 1 = channel *)
   o_sublen : option N;               (* len(sub) of the hub channel (hub-alone driver) *)
   o_got : option (list gseg);        (* concatenation of the batches received so far *)
   o_closed : option bool;            (* the client has seen the result channel closed *)
-  o_quiet : bool                     (* driver: writes done, pipeline settled, client drained *)
+  o_quiet : bool;                    (* driver: writes done, pipeline settled, client drained *)
+  o_wire : bool                      (* the events were read off the etcd wire format, which has one PUT for
+                                        create and update: compared modulo that (wire_ev) *)
 }.
+
+(* what the etcd wire format keeps of an event: CREATE and PUT are both PUT (CreateRevision = ModRevision) *)
+Definition wire_ev (e : event) : event :=
+  match e_ty e with
+  | VCreate => mkEv VPut (e_rev e) (e_key e) (e_val e) (e_kvrev e)
+  | _ => e
+  end.
+Definition proj (wire : bool) (evs : list event) : list event := if wire then map wire_ev evs else evs.
 
 Inductive rstep :=
 | RL (lb : label)
@@ -84,7 +95,10 @@ Definition expand_steps (steps : list rstep) : list rstep := flat_map expand_ste
 
 Inductive c05_case :=
 | KRing (l : N) (revs : list N) (S : N) (obs : ring_obs)
-| KRun (pa : params) (l c0 : N) (steps : list rstep).
+| KRun (pa : params) (l c0 : N) (steps : list rstep)
+(* one FindEvents(S) result taken while a concurrent appender adds events with consecutive revisions: the bounds it
+   reported (oldest, newest) and the revisions of the events it returned (None = nil entry) *)
+| KSnap (S od nw : N) (evs : list (option N)).
 
 Definition status_of (w : watcher) : N :=
   match w_phase w with
@@ -103,9 +117,10 @@ Definition obs_ok (s : sys) (o : wobs) : bool :=
   match nth_error (s_ws s) (o_w o) with
   | None => false
   | Some w =>
+      (o_S o =? w_S w) && beqb (o_P o) (w_P w) &&
       match o_status o with Some st => st =? status_of w | None => true end &&
       match o_sublen o with Some n => n =? chan_len (w_sub w) | None => true end &&
-      match o_got o with Some g => evs_eqb (gexpand g) (concat (w_got w)) | None => true end &&
+      match o_got o with Some g => evs_eqb (gexpand g) (proj (o_wire o) (concat (w_got w))) | None => true end &&
       match o_closed o with Some b => Bool.eqb b (w_seen_close w) | None => true end &&
       (if o_quiet o then
          quiescent s w &&
@@ -139,7 +154,42 @@ Fixpoint run_check (pa : params) (steps : list rstep) (s : sys) : bool :=
   | RRep _ _ :: t => false
   end.
 
+(* a, a+1, ..., a+n-1 *)
+Fixpoint nseq (a : N) (n : nat) : list N :=
+  match n with
+  | O => []
+  | S k => a :: nseq (a + 1) k
+  end.
+
+(* what an atomic FindEvents(S) returns on a ring of consecutive revisions whose window is od..nw, od <= S <= nw:
+   the revisions S, S+1, ..., nw (Proofs/WatchRing.v ring_consecutive) *)
+Definition snap_expect (S nw : N) : list (option N) := map Some (nseq S (N.to_nat (nw + 1 - S))).
+Definition snap_ok (S od nw : N) (evs : list (option N)) : bool :=
+  (od <=? S) && (S <=? nw) && list_eqb on_eqb evs (snap_expect S nw).
+
+(* the cases the theorems speak about, decidably: a cache of at least one slot; ring cases with strictly increasing
+   revisions. A generated case that is not valid counts as a disagreement (c05_check). *)
+Fixpoint increasingb (l : list N) : bool :=
+  match l with
+  | a :: (b :: _) as t => (a <? b) && increasingb t
+  | _ => true
+  end.
+(* every observation of a run carries what the client has received so far (an observation without it would not be
+   constrained by the oracle) *)
+Definition obs_has_got (st : rstep) : bool :=
+  match st with
+  | RObs o => match o_got o with Some _ => true | None => false end
+  | _ => true
+  end.
+Definition c05_validb (c : c05_case) : bool :=
+  match c with
+  | KRing l revs _ _ => (0 <? l) && increasingb revs
+  | KRun _ l _ steps => (0 <? l) && forallb obs_has_got steps
+  | KSnap _ _ _ _ => true
+  end.
+
 Definition c05_check (c : c05_case) : bool :=
+  c05_validb c &&
   match c with
   | KRing l revs sr obs =>
       match ring_of l (map ring_ev revs) with
@@ -147,6 +197,7 @@ Definition c05_check (c : c05_case) : bool :=
       | Some r => ring_obs_eqb (obs_of_find (find_events r sr)) obs
       end
   | KRun pa l c0 steps => run_check pa (expand_steps steps) (init l c0)
+  | KSnap sr od nw evs => snap_ok sr od nw evs
   end.
 
 (* ---------- the oracle: the property on the implementation's observation ---------- *)
@@ -158,13 +209,16 @@ Definition sigma_of (ls : list label) : list event :=
                       | _ => []
                       end) ls.
 
-(* C05_prefix / C05_complete on one observation. `s` is only used for the schedule's bookkeeping
-   (which subscription is watcher i, and how many events the hub had fanned out before it). *)
+(* C05_prefix / C05_complete on one observation: start revision and prefix are the client's own request (o_S, o_P),
+   sigma the implementation's own successful writes. The model state `s` is used for one piece of schedule
+   bookkeeping only, which no client can observe: for S = 0, how many of those writes the hub had fanned out before
+   the subscription was registered (w_base; the driver fixes it by letting every earlier write reach a monitor
+   watcher before it calls Watch). *)
 Definition obs_oracle (s : sys) (sigma : list event) (o : wobs) : option N :=
   match nth_error (s_ws s) (o_w o), o_got o with
   | Some w, Some g0 =>
       let g := gexpand g0 in
-      let idl := ideal (w_S w) (w_P w) (w_base w) sigma in
+      let idl := proj (o_wire o) (ideal (o_S o) (o_P o) (w_base w) sigma) in
       if prefixb g idl then
         (if o_quiet o then
            match o_status o, o_closed o with
@@ -204,4 +258,5 @@ Definition c05_oracle (c : c05_case) : option N :=
   | KRing l revs sr obs =>
       if (0 <? l) then ok_if (ring_obs_eqb (obs_of_find (find_spec l (map ring_ev revs) sr)) obs) else None
   | KRun pa l c0 steps => run_oracle pa (expand_steps steps) (init l c0) []
+  | KSnap sr od nw evs => ok_if (snap_ok sr od nw evs)
   end.
